@@ -423,5 +423,19 @@ func corpusC01() []*scen.Scenario {
 	m4 := &scen.Method{Name: "ValueGetterResult", Src: scen.Param{Type: "*S"}, Dst: scen.Param{Type: "*D"},
 		Notations: []scen.Notation{scen.N("getter"), scen.N("map", "Val().Name()", "N2"), scen.N("conv", "cvPI2", "Val().Aux", "A2"), scen.N("conv", "cvPIn", "Val()", "A3")},
 		Probes:    []scen.Probe{{Dst: "Val", Mech: "nested", DstT: "DIn", SrcT: "In", Extra: "via-getter"}, {Dst: "N2", Mech: "map", DstT: "string", Extra: "getter"}, {Dst: "A2", Mech: "conv", DstT: "int", Extra: "ptrarg"}, {Dst: "A3", Mech: "conv", DstT: "int", Extra: "ptrarg"}}}
-	return []*scen.Scenario{b.Manual(m), b2.Manual(m2), b3.Manual(m3), b4.Manual(m4)}
+	// repaired in 3ea38bc: a value returned together with an error (getter or converter returning (T, error))
+	// was wrapped in a conversion, String() or converter call - int64(src.Get()), src.Lev().String(),
+	// cvI(src.Get()), int64(cvE(src.L)) - none of which compiles (reported in passing by a round-7 sub-agent)
+	b5 := scen.NewBuilder(nil, scen.Profile{}, "kw-c01-error-value-wrapped", "kwc01e")
+	s5 := b5.Struct("", "S", "gn int", "L int")
+	s5.Methods = append(s5.Methods, "func (s *S) Get() (int, error) {\n\tvtr.Enter(\"S.Get\")\n\treturn s.gn, nil\n}\n",
+		"func (s *S) Lev() (WSt, error) {\n\tvtr.Enter(\"S.Lev\")\n\treturn WSt{s.gn}, nil\n}\n")
+	b5.Func("type WSt struct{ N int }\n\nfunc (w WSt) String() string { return \"w\" }\n", false, "")
+	b5.Func("func cvI(v int) string {\n\tvtr.Enter(\"cvI\", v)\n\treturn \"i\"\n}\n", false, "cvI")
+	b5.Func("func cvE(v int) (int32, error) {\n\tvtr.Enter(\"cvE\", v)\n\treturn int32(v), nil\n}\n", false, "cvE")
+	b5.Struct("", "D", "X string", "Y int64", "Z string", "W int64", "V int")
+	m5 := &scen.Method{Name: "ErrorValueWrapped", Src: scen.Param{Type: "*S"}, Dst: scen.Param{Type: "*D"}, HasErr: true,
+		Notations: []scen.Notation{scen.N("typecast"), scen.N("stringer"), scen.N("conv", "cvI", "Get()", "X"), scen.N("map", "Get()", "Y"), scen.N("map", "Lev()", "Z"), scen.N("conv", "cvE", "L", "W"), scen.N("map", "Get()", "V")},
+		Probes:    []scen.Probe{{Dst: "X", Mech: "conv", DstT: "string", Extra: "gettererr"}, {Dst: "Y", Mech: "map", DstT: "int64", Extra: "gettererrtyped"}, {Dst: "Z", Mech: "map", DstT: "string", Extra: "gettererrtyped"}, {Dst: "W", Mech: "conv", DstT: "int64", Extra: "errdstdiff+err"}, {Dst: "V", Mech: "map", DstT: "int", Extra: "gettererr"}}}
+	return []*scen.Scenario{b.Manual(m), b2.Manual(m2), b3.Manual(m3), b4.Manual(m4), b5.Manual(m5)}
 }
